@@ -336,6 +336,14 @@ def judge_state_diff(ref, obs, full_log, upto):
         return None, labels
     return ('structure:%s:%s' % (tcat, what.replace(' ', '-')), structural[:4]), labels
   real, _ = cycle_filter(cells, lambda t, c: col_kind(ref, t, c))
+  # An error value that went through encoding (stored in a data cell, or restored by undo actions) no longer
+  # carries its exception object: a formula reading it reports a wrapper around None ('NoneType') instead of
+  # the original class. Listed under C05 (reload:stored-error-reraised-as-NoneType); not charged again here.
+  n0 = len(real)
+  real = [x for x in real if not (eqv.is_error_cell(x[3]) and eqv.is_error_cell(x[4]) and
+                                  (x[3][1:2] == ['NoneType']) != (x[4][1:2] == ['NoneType']))]
+  if len(real) < n0:
+    labels.append('error-kind-NoneType-after-decoding(C05 known finding)')
   if len(real) < len(cells):
     labels.append('cycle-error-kind-differs(not judged)')
   if not real:
@@ -383,6 +391,21 @@ def made_formula_then_removed(uas, cells, kind_of=None):
   if kind_of is not None:      # dependents (formula cells) of the lost data differ too
     cells = [x for x in cells if kind_of(x[0], x[1]) != 'formula']
   return bool(cells) and all((x[0], x[1]) in hit for x in cells)
+
+
+def made_formula_with_type_change(uas, cells, kind_of=None):
+  """Second root cause around data->formula conversion: ONE ModifyColumn turns a data column into a formula
+  column and changes its type. Undo (and the engine's own rollback, which applies the same undo actions) restores
+  the old data through the undo of the calculated values, which is applied while the column still has its new
+  type - the restored values are coerced by that type (Int 0 -> False under Bool, ...) and stay that way when the
+  column gets its old type back. True when every differing data cell lies in such a column."""
+  hit = set()
+  for u in uas:
+    if u[0] == 'ModifyColumn' and isinstance(u[3], dict) and u[3].get('isFormula') is True and 'type' in u[3]:
+      hit.add((u[1], u[2]))
+  if kind_of is not None:
+    cells = [x for x in cells if kind_of(x[0], x[1]) != 'formula']
+  return bool(cells) and bool(hit) and all((x[0], x[1]) in hit for x in cells)
 
 
 def undo_raised_sig(doc, uas, error, undo=None):
